@@ -233,6 +233,15 @@ def generate(rng, depth=2, n_files=14, symlinks=True, outside_links=False, big=F
                     t.add_link(d + "/link-up.txt", up + os.path.basename(rootfile[0]))   # ../x
         if len(dirs) > 1:
             t.add_link("/dirlink", dirs[1][1:])                                          # symlink to a directory
+    # siblings that build tools and editors leave next to a file (pre-compressed copies, backups, source maps): other files
+    sib_src = [k for k in sorted(t.files) if k.count("/") <= 2 and "." in os.path.basename(k)][:40]
+    for k, up in enumerate(rng.sample(sib_src, min(3, len(sib_src)))):
+        for suffix in ((".gz", ".br"), (".bak", "~"), (".map", ".orig"))[k % 3]:
+            sp = up + suffix
+            if sp not in t.files:
+                mk = marker("MK", tag, sp)
+                t.add_file(sp, content(rng, rng.choice([20, 64, 200]), mk, "binary" if suffix in (".gz", ".br") else "text"))
+                t.markers[mk] = sp
     # the served directory's own absolute path once more below it (a backup, a mis-aimed rsync): string surgery on paths that
     # strips or searches for the root "wherever it occurs" goes wrong here; plus a directory named like the root itself
     nested = t.root            # url path "/<abs root>/..." inside the root
